@@ -295,7 +295,8 @@ Definition aprocess_case (e : aenv) (l : list node) : res (list node) :=
   | _ :: _ =>
       match endt with
       | Some (eidx, _) => Ok (insert_at (cur_idx ins1 eidx) (anl e (10 - str_len l eidx)) l1)
-      | None => Err ValueError                   (* tlist.insert_before(None, ...) *)
+      | None => Ok l1                            (* if end_token is not None: cases.append(...)  -- fix of C07-AL-1;
+                                                    before it: tlist.insert_before(None, ...) raised ValueError *)
       end
   end.
 
